@@ -6,6 +6,7 @@ import (
 	"fmt"
 	"go/token"
 	"go/types"
+	"sort"
 	"strings"
 
 	"golang.org/x/tools/go/ssa"
@@ -436,4 +437,113 @@ func (c *Ctx) ruleContainersEmptyFalse() {
 		}
 		c.check(okAll, "CONTAINER-EMPTY", "util."+nm, P.Pos(fn.Pos()), "true only for an entry found in the container", why)
 	}
+}
+
+// ruleKindStorage (CONTAINER-KIND): the attachment container keeps what was attached to a type, to a function, to
+// a field and to a method apart. A query for one kind has to read storage that only the Add method of that kind
+// writes; a query that reads nothing but storage shared with another kind (the per-type entry that is also
+// created when something is attached to a method or a field of the type) answers for items that were never
+// annotated.
+func (c *Ctx) ruleKindStorage() {
+	P := c.P
+	type fkey struct {
+		t string
+		f int
+	}
+	written := func(fn *ssa.Function) map[fkey]bool {
+		out := map[fkey]bool{}
+		for _, f := range P.StaticClosure(fn) {
+			allInstrs(f, func(_ *ssa.BasicBlock, ins ssa.Instruction) {
+				switch x := ins.(type) {
+				case *ssa.Store:
+					if fa, ok := x.Addr.(*ssa.FieldAddr); ok {
+						out[fkey{typeStr(deref(fa.X.Type())), fa.Field}] = true
+					}
+				case *ssa.MapUpdate:
+					if ld, ok := x.Map.(*ssa.UnOp); ok {
+						if fa, ok := ld.X.(*ssa.FieldAddr); ok {
+							out[fkey{typeStr(deref(fa.X.Type())), fa.Field}] = true
+						}
+					}
+				}
+			})
+		}
+		return out
+	}
+	read := func(fn *ssa.Function) map[fkey]bool {
+		out := map[fkey]bool{}
+		for _, f := range P.StaticClosure(fn) {
+			allInstrs(f, func(_ *ssa.BasicBlock, ins ssa.Instruction) {
+				switch x := ins.(type) {
+				case *ssa.UnOp:
+					if fa, ok := x.X.(*ssa.FieldAddr); ok && x.Op == token.MUL {
+						out[fkey{typeStr(deref(fa.X.Type())), fa.Field}] = true
+					}
+				case *ssa.Field:
+					out[fkey{typeStr(x.X.Type()), x.Field}] = true
+				}
+			})
+		}
+		return out
+	}
+	adders := map[string]string{"type": "AttachmentsMap.AddPkgTypeAttachment", "function": "AttachmentsMap.AddPkgFunctionAttachment",
+		"method": "AttachmentsMap.AddPkgTypeMethodAttachment", "field": "AttachmentsMap.AddPkgTypeFieldAttachment", "package": "AttachmentsMap.AddPkgAttachment"}
+	writers := map[fkey]map[string]bool{}
+	for kind, nm := range adders {
+		fn := P.LookupFunc("util", nm)
+		if fn == nil {
+			if kind == "type" || kind == "function" || kind == "method" {
+				c.fail("CONTAINER-KIND", "util."+nm, "", "Add method not found")
+			}
+			continue
+		}
+		for k := range written(fn) {
+			if writers[k] == nil {
+				writers[k] = map[string]bool{}
+			}
+			writers[k][kind] = true
+		}
+	}
+	queries := []struct{ name, kind string }{
+		{"AttachmentsMap.HasAnyTypeAttachments", "type"}, {"AttachmentsMap.HasPkgTypeAttachment", "type"},
+		{"AttachmentsMap.HasAnyFunctionAttachments", "function"}, {"AttachmentsMap.HasPkgFunctionAttachment", "function"},
+		{"AttachmentsMap.HasAnyMethodAttachments", "method"}, {"AttachmentsMap.HasPkgTypeMethodAttachment", "method"},
+	}
+	n := 0
+	for _, q := range queries {
+		fn := P.LookupFunc("util", q.name)
+		if fn == nil {
+			c.fail("CONTAINER-KIND", "util."+q.name, "", "query method not found")
+			continue
+		}
+		own := ""
+		var shared []string
+		for k := range read(fn) {
+			w := writers[k]
+			if len(w) == 1 && w[q.kind] {
+				own = k.t + "." + fieldNameOfType(P, k.t, k.f)
+			} else if len(w) > 1 && w[q.kind] {
+				shared = append(shared, k.t+"."+fieldNameOfType(P, k.t, k.f))
+			}
+		}
+		sort.Strings(shared)
+		n++
+		c.check(own != "", "CONTAINER-KIND", "util."+q.name, P.Pos(fn.Pos()), "answers from storage that only the Add method of its kind writes ("+own+")",
+			fmt.Sprintf("the query for what is attached to a %s reads no storage that only %s writes (it reads %v, which Add methods of other kinds fill too): it answers true for a %s nothing was attached to", q.kind, adders[q.kind], shared, q.kind))
+	}
+	c.floor("attachment queries compared with their Add method", n, 6)
+}
+
+func fieldNameOfType(P *Program, t string, i int) string {
+	for _, p := range P.SSA.AllPackages() {
+		if p.Pkg == nil {
+			continue
+		}
+		for _, nm := range p.Pkg.Scope().Names() {
+			if tn, ok := p.Pkg.Scope().Lookup(nm).(*types.TypeName); ok && typeStr(tn.Type()) == t {
+				return fieldName(tn.Type(), i)
+			}
+		}
+	}
+	return fmt.Sprintf("#%d", i)
 }
